@@ -79,13 +79,14 @@ var refuseCodes = []int{2, 3, 5, 9, 13}
 
 // Switches are the counted exclusions that keep the search going behind listed findings.
 type Switches struct {
-	FixNilCommitted bool // F-v3-nil-committed-values
-	DistinctPaths   bool // F-v3-applied-aliases-committed: no path is written by two transactions
-	OnePath         bool // F-v3-store-loopvar: one path per transaction
-	NoTransient     bool // F-v3-grpc-code-unwrapped: no transient Unavailable from the device
-	NoAfterRollback bool // F-v3-stuck-after-rollback: at most one rollback request, of the latest change, and nothing appended after it
-	NoRefusal       bool // set by a finding that makes refused applies unusable
-	AbortOnConflict bool // F-v3-conflict-swallowed: a reconcile ends at its first refused (conflicting) write
+	FixNilCommitted   bool // F-v3-nil-committed-values: the decorator hands out an empty map for a nil Committed.Values
+	DistinctPaths     bool // F-config-applied-aliases-committed: no path is written by two transactions
+	OnePath           bool // F-v3-config-store-loopvar-alias: one path per transaction
+	NoTransient       bool // F-v3-grpc-code-unwrapped: no transient Unavailable/Canceled/DeadlineExceeded from the device
+	AbortOnConflict   bool // F-v3-conflict-swallowed: a reconcile ends at its first refused (conflicting) write
+	RbSingleTrailing  bool // F-v3-stuck-after-rollback: one rollback request, of the latest change, nothing appended after it
+	RbOverAppliedOnly bool // F-v3-rollback-marks-unapplied-revision: rollback only when every earlier change was applied
+	RbNotBehindFailed bool // F-v3-rollback-behind-failed-change: no rollback of a change that has a failed or uncommitted change behind it
 }
 
 func genValue(rt *rapid.T, l leafSpec, allowRefuse bool) *model.Value {
@@ -115,8 +116,8 @@ func genC20(sw Switches) func(rt *rapid.T) C20Case {
 		}
 		nAppend := rapid.IntRange(1, 4).Draw(rt, "appends")
 		nRollback := rapid.IntRange(0, 3).Draw(rt, "rollbacks")
-		nEnv := rapid.IntRange(0, 3).Draw(rt, "envActions")
-		if sw.NoAfterRollback && nRollback > 1 {
+		nEnv := rapid.IntRange(0, 4).Draw(rt, "envActions")
+		if sw.RbSingleTrailing && nRollback > 1 {
 			nRollback = 1
 		}
 		used := map[string]bool{}
@@ -147,7 +148,7 @@ func genC20(sw Switches) func(rt *rapid.T) C20Case {
 					a.Values = append(a.Values, PV{Path: l.path})
 					continue
 				}
-				a.Values = append(a.Values, PV{Path: l.path, Val: genValue(rt, l, !sw.NoRefusal)})
+				a.Values = append(a.Values, PV{Path: l.path, Val: genValue(rt, l, true)})
 				written[l.path] = true
 			}
 			acts = append(acts, a)
@@ -157,7 +158,7 @@ func genC20(sw Switches) func(rt *rapid.T) C20Case {
 			pos := rapid.IntRange(min, len(acts)).Draw(rt, "pos")
 			acts = append(acts[:pos:pos], append([]Action{a}, acts[pos:]...)...)
 		}
-		envKinds := []string{"disconnect", "connect", "second-conn", "drop-master", "stop", "start", "crash", "crash-at", "crash-at"}
+		envKinds := []string{"disconnect", "connect", "second-conn", "drop-master", "stop", "start", "crash", "crash-at", "crash-at", "crash-at", "crash-at"}
 		if !sw.NoTransient {
 			envKinds = append(envKinds, "fault")
 		}
@@ -165,8 +166,8 @@ func genC20(sw Switches) func(rt *rapid.T) C20Case {
 			a := Action{Kind: rapid.SampledFrom(envKinds).Draw(rt, "env")}
 			switch a.Kind {
 			case "crash-at":
-				a.After = rapid.IntRange(0, 12).Draw(rt, "after")
-				a.Mid = rapid.IntRange(0, 3).Draw(rt, "mid") == 0
+				a.After = rapid.IntRange(0, 10).Draw(rt, "after")
+				a.Mid = rapid.IntRange(0, 2).Draw(rt, "mid") == 0
 			case "fault":
 				a.Code = rapid.SampledFrom([]int{14, 14, 4, 1}).Draw(rt, "code")
 			}
@@ -174,9 +175,16 @@ func genC20(sw Switches) func(rt *rapid.T) C20Case {
 		}
 		for i := 0; i < nRollback; i++ {
 			a := Action{Kind: "rollback", Pick: rapid.SampledFrom([]int{0, 0, 0, 1, 2}).Draw(rt, "pick")}
-			if sw.NoAfterRollback {
+			if sw.RbSingleTrailing {
+				// after the last AppendChange
+				last := 0
+				for k, b := range acts {
+					if b.Kind == "append" {
+						last = k + 1
+					}
+				}
 				a.Pick = 0
-				acts = append(acts, a)
+				insert(a, last)
 				continue
 			}
 			insert(a, 1)
